@@ -146,3 +146,29 @@ Theorem entry_point_unlocked_part_local : forall eps name s t fl,
   check_program eps = [] -> In (name, s) eps -> exec s t fl ->
   unlocked_local (prot_of (written eps)) false t = true.
 Proof. intros. eapply wl_unlocked_local. eapply entry_point_well_locked; eauto. Qed.
+
+(* a thread that holds the lock in the middle of a well-locked (balanced) trace still has the release ahead of it, and no
+   acquire before that release: together with holder_never_blocks this excludes a deadlock on the allocator lock *)
+Lemma holder_will_release : forall prot rest, wl prot true rest = Some false ->
+  exists r1 r2, rest = (r1 ++ ERel :: r2)%list /\ ~ In EAcq r1 /\ ~ In ERel r1.
+Proof.
+  intros prot. induction rest as [|e rest IH]; intros H; cbn [wl] in H; [discriminate|].
+  destruct e.
+  - discriminate.
+  - exists [], rest. split; [reflexivity|]. split; intros [].
+  - destruct (prot f && negb true); [discriminate|]. destruct (IH H) as [r1 [r2 [-> [H1 H2]]]].
+    exists (ERd o f v :: r1), r2. split; [reflexivity|]. split; intros [E|Hin]; try discriminate; auto.
+  - destruct (prot f && true); [|discriminate]. destruct (IH H) as [r1 [r2 [-> [H1 H2]]]].
+    exists (EWr o f v :: r1), r2. split; [reflexivity|]. split; intros [E|Hin]; try discriminate; auto.
+  - destruct (IH H) as [r1 [r2 [-> [H1 H2]]]].
+    exists (ETau :: r1), r2. split; [reflexivity|]. split; intros [E|Hin]; try discriminate; auto.
+Qed.
+
+Theorem thread_holder_releases : forall eps t done rest,
+  check_program eps = [] -> thread_trace eps t -> t = (done ++ rest)%list ->
+  wl (prot_of (written eps)) false done = Some true ->
+  exists r1 r2, rest = (r1 ++ ERel :: r2)%list /\ ~ In EAcq r1 /\ ~ In ERel r1.
+Proof.
+  intros eps t done rest Hc Ht -> Hd. pose proof (thread_well_locked eps _ Hc Ht) as Hw.
+  rewrite wl_app, Hd in Hw. eapply holder_will_release; eauto.
+Qed.
